@@ -46,7 +46,6 @@ pub fn gen_opts(ctx: &Ctx) -> GenOpts {
   o.table_not_last = !ctx.excl("cbor_table_before_literal_key");
   o.dup_literal_keys = !ctx.excl("cbor_duplicate_literal_keys_greedy");
   o.tag_without_number = !ctx.excl("cbor_tag_without_number");
-  o.recursion = !ctx.excl("cbor_recursive_schema_exponential_time");
   apply_env_off(&mut o);
   o
 }
